@@ -125,6 +125,13 @@ def permutation_specs(ctx, rng):
             x1 = ep.scan(excl={"kind": "glob", "patterns": [pa, pb]})
             x2 = ep.scan(excl={"kind": "glob", "patterns": [pb, pa]}, shuffle=rng.randint(0, 10 ** 6))
             ep.law("same", [x1, x2])
+            # regular expressions, one of them with an inline global flag, listed in both orders
+            import re as _re2
+            ra = "(?i).*/" + _re2.escape(a[-1].upper()) + r"(\.py)?$"
+            rb = ".*/" + _re2.escape(b[-1].upper()) + r"(\.py)?$"
+            y1 = ep.scan(excl={"kind": "regex", "patterns": [ra, rb]})
+            y2 = ep.scan(excl={"kind": "regex", "patterns": [rb, ra]})
+            ep.law("same", [y1, y2])
         e1 = ep.scan(ext=True)
         ep.law("same", [e1, ep.scan(ext=True, shuffle=rng.randint(0, 10 ** 6))])
         sspecs.append(ep.spec)
